@@ -24,4 +24,23 @@ CHECKS.update({
    'A(dst).noalias() op= A(src) on one inout tensor is interpreted with all cells symbolic and compared, over the whole tensor, with a reference that reads the complete right-hand side before writing; also expressions of overlapping slices, re-armed repeated application through one view object, and perfect overlap without noalias(). Dynamic and compile-time views, five operators.'),
 })
 
+CHECKS.update({
+ 'C02': _c('proof', 'DESIGN.md §5 C02', IRF + 'EXACT term equality (bit-preserving rewrites only) of every flat position against the same scalar expression compiled by the same compiler; Shannon expansion for boolean-valued expressions',
+   'For every enumerated (expression tree, size, element type, assignment form, ISA) each position p of the destination is shown to be the same IEEE/integer function of the p-th operand elements as the scalar C++ expression (vector body, scalar tail and every residue under one oracle); division by a scalar is compared algebraically (documented reciprocal multiply).'),
+ 'C03': _c('proof', 'DESIGN.md §5 C03', IRF + 'per-element polynomial identity with the naive Einstein sum; static_assert on decltype for the result type (tmeta)',
+   'For every enumerated index pattern (all labelings of ranks <= 3, sampled rank 4), extents, type and configuration the compiler asserts the result type (free indices in first-appearance order) and every element is shown to be the polynomial the Einstein sum denotes; einsum, contraction, explicit-output (C++17), single-tensor traces, inner and outer.'),
+ 'C08': _c('proof', 'DESIGN.md §5 C08', IRF + 'lane-wise EXACT/ALGEBRAIC/MINMAX comparison of each SIMDVector<T,ABI> operation with a scalar loop over the lanes; symbolic masks',
+   'For every (operation, element type, ABI, ISA build) lane i of the result is shown to be the scalar operation on lane i of the operands, horizontal operations are folds over exactly the lanes, set() uses one argument order under every ABI, and masked loads/stores with a symbolic mask (all 2^Size masks) touch only enabled lanes. Intrinsic specialisations and the generic fallback are both covered because every ABI is instantiated under every ISA.'),
+ 'C09': _c('translation_validation', 'DESIGN.md §5 C09', IRF + 'relational: lazy-operator program vs eager-temporary program over the same symbolic operands; EXACT (ALGEBRAIC for re-associated chains and staged sums)',
+   'Each case is a pair of programs; the destination contents after the lazy form and after the eager form are compared term for term. Covers %, inv, det, trans, cof, adj, solve, norm, trace, chains of 3-5 products, five assignment operators and destination-on-the-right-hand-side aliasing.'),
+ 'C15': _c('other', 'DESIGN.md §5 C15', IRF + 'per-element polynomial identity (degree 3/4) with the full Einstein sum; static_assert on the declared type; permutation diagnosis of mismatches',
+   'For a fixed corpus of 3- and 4-operand index topologies and extent assignments the declared type is asserted and every element compared with the full Einstein sum, under op-min on/off and FASTOR_KEEP_DP_FIXED. The unchanged tree violates the property (known findings F09, F19, F20: results in pairing order / wrong values for 4 operands / configuration-dependent acceptance); the check reports those as KNOWN-FINDING and any other violation as VIOLATION.'),
+ 'C16': _c('other', 'DESIGN.md §5 C16', IRF + 'polynomial folds, MINMAX sets, Leibniz determinant oracle, Shannon expansion of predicates',
+   'sum/product/inner/trace/norm are shown to be folds over every element once, min/max to be min/max over exactly the elements (no foreign seed), determinant n<=4 to equal the Leibniz polynomial, all_of/any_of/none_of/isequal/issymmetric to be the boolean functions of their comparison atoms. Not decided: determinants n>4 (pivot search) and the numeric size of rounding errors (premises only).'),
+ 'C19': _c('proof', 'DESIGN.md §5 C19', IRF + 'copy-flow for index-tensor reads, whole-tensor frame comparison for writes, symbolic masks via gated merge',
+   'Index tensors are constant sidecar cells (one compiled function, one interpretation per index vector, exhaustive for short vectors over small parents); masks are symbolic data so one interpretation covers all 2^n masks: A(mask) op= rhs leaves cell p as select(m_p, op(A_p,r_p), A_p).'),
+ 'C20': _c('proof', 'DESIGN.md §5 C20', IRF + 'whole-buffer comparison of TensorMap operations on alignof(T)-aligned raw regions; alias sequences through reshape/flatten/squeeze; copy-flow maps for layout conversion and constructors',
+   'Operations through TensorMap over a raw buffer leave exactly the state plain loops leave, with no alignment-requiring access (all misalignments at once); reshape/flatten/squeeze alias the source storage; tocolumnmajor/torowmajor round trips are the identity and constructors store row-major. Known finding F21: the two conversion functions implement each other\'s documented map.'),
+})
+
 NOT_BUILT = 'check not built yet (build in progress; see DESIGN.md §10)'
